@@ -59,6 +59,57 @@ mod verif_c16 {
     is_valid_bounded!(is_valid_matches_regex_len4, 4, 7);
     is_valid_bounded!(is_valid_matches_regex_len5, 5, 8);
 
+    // long inputs, cheap form: tokens of 20, 33 and 40 class characters with one arbitrary ASCII byte at the first, a middle or
+    // the last position (positions are concrete, so this stays decidable when is_valid is restructured into blocks)
+    macro_rules! is_valid_long_edge {
+        ($name:ident, $n:expr, $pos:expr) => {
+            #[kani::proof]
+            #[kani::unwind(44)]
+            fn $name() {
+                let mut buf = [b'a'; $n];
+                let b: u8 = kani::any();
+                kani::assume(b < 128);
+                buf[$pos] = b;
+                let s = unsafe { std::str::from_utf8_unchecked(&buf) };
+                assert!(is_valid(s) == spec_valid(&buf));
+                kani::cover!(spec_valid(&buf));
+                kani::cover!(!spec_valid(&buf));
+            }
+        };
+    }
+    is_valid_long_edge!(is_valid_long_edge_20_first, 20, 0);
+    is_valid_long_edge!(is_valid_long_edge_20_last, 20, 19);
+    is_valid_long_edge!(is_valid_long_edge_33_middle, 33, 17);
+    is_valid_long_edge!(is_valid_long_edge_33_last, 33, 32);
+    is_valid_long_edge!(is_valid_long_edge_40_last, 40, 39);
+
+    // long inputs: a 40-byte token of class characters with one arbitrary ASCII byte at an arbitrary position, and an
+    // arbitrary number of trailing '=' (validation that only looks at part of a long string shows here)
+    #[kani::proof]
+    #[kani::unwind(44)]
+    fn is_valid_long_one_free_byte() {
+        let mut buf = [b'a'; 40];
+        let pad: usize = kani::any();
+        kani::assume(pad <= 6);
+        let mut k = 0;
+        while k < 6 {
+            if k < pad {
+                buf[39 - k] = b'=';
+            }
+            k += 1;
+        }
+        let i: usize = kani::any();
+        kani::assume(i < 40);
+        let b: u8 = kani::any();
+        kani::assume(b < 128);
+        buf[i] = b;
+        let s = unsafe { std::str::from_utf8_unchecked(&buf) };
+        assert!(is_valid(s) == spec_valid(&buf));
+        kani::cover!(spec_valid(&buf) && !spec_valid_char(b));
+        kani::cover!(!spec_valid(&buf) && i == 39);
+        kani::cover!(!spec_valid(&buf) && i == 0);
+    }
+
 //@@ISVALID-END
 //@@API-BEGIN
     // ---- entry paths: accept <=> is_valid, accepted value renders back to the identical string ---------
